@@ -2489,7 +2489,15 @@ impl TrustedRuntimeWal {
             next_lsn
         };
         let writer_epoch = store.acquire_runtime_writer_epoch(next_lsn)?;
-        let next_lsn = writer_epoch.started_at_lsn;
+        // The append position continues the recovered log. A fresh epoch's start is only a
+        // lower bound handed out by the ledger: after a predecessor that closed without a
+        // commit it lies past the recovered tip, and appending there would leave an LSN hole
+        // that the next recovery rejects as a continuity mismatch.
+        let next_lsn = if recovered_cursor.has_committed_history {
+            next_lsn
+        } else {
+            writer_epoch.started_at_lsn
+        };
         let writer_epoch = writer_epoch.epoch_id;
         let durability_mode = store.durability_mode();
         Ok(Self {
